@@ -357,7 +357,7 @@ fn record_mode(input: &[Tok]) -> Option<&'static str> {
 pub fn fragment_src() -> String {
     let mut s = String::from("#![allow(warnings)]\nuse crate::rt;\n");
     s.push_str(
-        "macro_rules! mk {\n    ($e:expr, $b:block) => {\n        #[::entrait::entrait(pub TheTrait)]\n        pub mod m {\n            pub fn f(_d: &impl Sized, x: u32) -> u32 { $e * x }\n            pub fn g(_d: &impl Sized, x: u32) -> u32 { let y = $e * x; y }\n            fn private(x: u32) -> u32 { $e * x }\n            pub fn h(_d: &impl Sized, x: u32) -> u32 { private(x) }\n            pub fn blk(_d: &impl Sized) -> u32 $b\n            pub mod inner { pub fn k(x: u32) -> u32 { $e * x } }\n            pub struct Z;\n            impl Z { pub fn z(x: u32) -> u32 { $e * x } }\n        }\n        pub struct X;\n        #[::entrait::entrait(XImpl, delegate_by = DelegateX)]\n        pub trait XT { fn xf(&self, x: u32) -> u32; }\n        #[::entrait::entrait]\n        impl XImpl for X { pub fn xf(_d: &impl Sized, x: u32) -> u32 { $e * x } }\n    };\n}\nmk!(1 + 1, { 40 + 2 });\nmacro_rules! outer {\n    ($b:block) => { inner! { fn helper() -> u32 $b } };\n}\nmacro_rules! inner {\n    ($i:item) => {\n        #[::entrait::entrait(pub Nested)]\n        pub mod n { $i pub fn after(_d: &impl Sized) -> u32 { helper() } }\n        #[::entrait::entrait(pub NestedLast)]\n        pub mod nl { pub fn before(_d: &impl Sized) -> u32 { helper() } $i }\n    };\n}\nouter! { { 7 } }\npub struct App;\nimpl DelegateX<App> for App { type Target = X; }\n",
+        "macro_rules! mk {\n    ($e:expr, $b:block, $t:ty) => {\n        #[::entrait::entrait(pub TheTrait)]\n        pub mod m {\n            pub fn f(_d: &impl Sized, x: u32) -> u32 { $e * x }\n            pub fn g(_d: &impl Sized, x: u32) -> u32 { let y = $e * x; y }\n            fn private(x: u32) -> u32 { $e * x }\n            pub fn h(_d: &impl Sized, x: u32) -> u32 { private(x) }\n            pub fn blk(_d: &impl Sized) -> u32 $b\n            pub fn arr(_d: &impl Sized) -> [u8; $e * 3] { [0; $e * 3] }\n            pub fn dynref(_d: &impl Sized, x: &$t) -> u32 { x() }\n            pub mod inner { pub fn k(x: u32) -> u32 { $e * x } }\n            pub struct Z;\n            impl Z { pub fn z(x: u32) -> u32 { $e * x } }\n        }\n        pub struct X;\n        #[::entrait::entrait(XImpl, delegate_by = DelegateX)]\n        pub trait XT { fn xf(&self, x: u32) -> u32; }\n        #[::entrait::entrait]\n        impl XImpl for X { pub fn xf(_d: &impl Sized, x: u32) -> u32 { $e * x } }\n    };\n}\nmk!(1 + 1, { 40 + 2 }, dyn Fn() -> u32 + Send);\nmacro_rules! outer {\n    ($b:block) => { inner! { fn helper() -> u32 $b } };\n}\nmacro_rules! inner {\n    ($i:item) => {\n        #[::entrait::entrait(pub Nested)]\n        pub mod n { $i pub fn after(_d: &impl Sized) -> u32 { helper() } }\n        #[::entrait::entrait(pub NestedLast)]\n        pub mod nl { pub fn before(_d: &impl Sized) -> u32 { helper() } $i }\n    };\n}\nouter! { { 7 } }\npub struct App;\nimpl DelegateX<App> for App { type Target = X; }\n",
     );
     s.push_str("pub fn run() -> Vec<String> {\n    let mut fails: Vec<String> = vec![];\n    let app = ::entrait::Impl::new(App);\n");
     for (what, expr, want) in [
@@ -371,6 +371,12 @@ pub fn fragment_src() -> String {
         ("fn of an entraited impl block", "XT::xf(&app, 2)", 4),
     ] {
         s.push_str(&format!("    rt::expect_eq(&mut fails, \"{what}: `$e * x` with `$e = 1 + 1`, x = 2 (a `$b:block` body: 40 + 2)\", &({expr}), &{want}u32);\n"));
+    }
+    for (what, expr, want) in [
+        ("module fn whose signature has the `$e:expr` fragment in an array length (`[u8; $e * 3]`: 6, not 1 + 1 * 3)", "TheTrait::arr(&app).len() as u32", 6),
+        ("module fn whose signature has a `$t:ty` fragment behind a reference (`&$t` with `$t = dyn Fn() -> u32 + Send`)", "TheTrait::dynref(&app, &|| 5)", 5),
+    ] {
+        s.push_str(&format!("    rt::expect_eq(&mut fails, \"{what}\", &({expr}), &{want}u32);\n"));
     }
     for (what, expr) in [
         ("module fn after a private `$i:item` fragment whose body is a `$b:block` fragment", "Nested::after(&app)"),
